@@ -14,7 +14,7 @@ struct Recipe {
     std::vector<std::pair<std::string, std::string>> headers;   // typed headers by name -> value text
     std::vector<std::pair<std::string, std::string>> cookies;
     size_t bodyLen = 0; unsigned tag = 1;
-    std::vector<long> chunks;     // stream: sizes; -1 = an integer value written with operator<<, -2 = c-string literal
+    std::vector<long> chunks;     // stream: sizes; -1 = an integer value written with operator<<, -2 = c-string literal, -3 = a text in a larger char array
     std::vector<int> flushAfter;  // stream: flush after chunk i?
     bool viaClone = false;        // fixed: the handler answers on a clone() of the writer it was handed
     int te = 0;                   // stream: the handler announces a transfer coding of its own before it asks for the stream (1 gzip, 2 deflate, 3 compress)
@@ -72,6 +72,7 @@ struct RecipeHandler : public Http::Handler {
                     long n = rc->chunks[i];
                     if (n == -1) stream << (int)(1000 + (int)i * 101);
                     else if (n == -2) stream << "literal-chunk";
+                    else if (n == -3) { char line[48]; memset(line, '#', sizeof line); snprintf(line, sizeof line, "row-%d;", (int)i * 7 + 3); stream << line; }   // a text in a larger char array, as a handler formats it
                     else { std::string d = tagged_body(rc->tag + (unsigned)i, (size_t)n, false); stream.write(d.data(), (std::streamsize)d.size()); }
                     if (rc->flushAfter[i]) stream << Http::flush;
                 }
@@ -83,7 +84,7 @@ struct RecipeHandler : public Http::Handler {
 };
 static std::string expected_stream_body(const Recipe& rc) {
     std::string b;
-    for (size_t i = 0; i < rc.chunks.size(); i++) { long n = rc.chunks[i]; if (n == -1) b += std::to_string(1000 + (int)i * 101); else if (n == -2) b += "literal-chunk"; else b += tagged_body(rc.tag + (unsigned)i, (size_t)n, false); }
+    for (size_t i = 0; i < rc.chunks.size(); i++) { long n = rc.chunks[i]; if (n == -1) b += std::to_string(1000 + (int)i * 101); else if (n == -2) b += "literal-chunk"; else if (n == -3) b += "row-" + std::to_string((int)i * 7 + 3) + ";"; else b += tagged_body(rc.tag + (unsigned)i, (size_t)n, false); }
     return b;
 }
 static void gen_recipe(Rng& r, Recipe& rc, bool allowStream) {
@@ -112,7 +113,7 @@ static void gen_recipe(Rng& r, Recipe& rc, bool allowStream) {
         static const long SZ[] = {1, 15, 16, 17, 255, 256, 257, 4095, 4096, 4097, 65535, 65536, 65537};
         rc.moveAt = r.chance(1, 2) ? r.range(0, nch) : -1;
         rc.te = r.chance(1, 5) ? r.range(1, 3) : 0;
-        for (int i = 0; i < nch; i++) { int w = r.range(0, 9); long n = w <= 5 ? r.pick(SZ) : w == 6 ? -1 : w == 7 ? -2 : w == 8 ? 0 : r.range(1, 3000); rc.chunks.push_back(n); rc.flushAfter.push_back(r.chance(1, 2)); }
+        for (int i = 0; i < nch; i++) { int w = r.range(0, 9); long n = w <= 5 ? r.pick(SZ) : w == 6 ? -1 : w == 7 ? (r.chance(1, 2) ? -2 : -3) : w == 8 ? 0 : r.range(1, 3000); rc.chunks.push_back(n); rc.flushAfter.push_back(r.chance(1, 2)); }
         // the next lengths of the size line: six hex digits from 1 MiB on, seven from 16 MiB on (one such chunk per recipe at most)
         if (nch > 0 && r.chance(1, 10)) { static const long BIG[] = {1048575, 1048576, 1048577}; rc.chunks[(size_t)r.below((uint64_t)nch)] = r.pick(BIG); }
         else if (nch > 0 && r.chance(1, 60)) { static const long HUGE_[] = {16777215, 16777216}; rc.chunks[(size_t)r.below((uint64_t)nch)] = r.pick(HUGE_); }
